@@ -24,7 +24,7 @@ Proof. exact log_records_ok. Qed.
 Print Assumptions C08_ignored_name_never_stored.
 
 Theorem C08_ignored_never_counted : forall evs s,
-  In s (st_stats (run_log evs)) ->
+  In s (all_stats (run_log evs)) ->
   exists ev q, In (LQuery ev q) evs /\ s = stat_entry ev q /\
     e_sign ev (fst (fst s)) = false /\
     stats_client_counted (e_ix ev) (e_dhcp ev) (ids_of q) = true /\
@@ -33,11 +33,40 @@ Proof. exact stat_records_ok. Qed.
 Print Assumptions C08_ignored_never_counted.
 
 (** The log and the statistics hold exactly the records of the queries that
-    passed the tests, in order (nothing else is ever written). *)
+    passed the tests, in order (nothing else is ever written): for histories
+    without a rotation of the log file ... *)
 Theorem C08_records_exact : forall evs,
-  all_log (run_log evs) = logged evs /\ st_stats (run_log evs) = counted evs.
+  existsb is_rotate evs = false ->
+  all_log (run_log evs) = logged evs /\ all_stats (run_log evs) = counted evs.
 Proof. exact run_log_exact. Qed.
 Print Assumptions C08_records_exact.
+
+(** ... and across rotations (querylog.json renamed to querylog.json.1,
+    searches read both) and roll-overs of the statistics unit (the current unit
+    flushed to stats.db, reports merge the units): the records that passed the
+    tests are what an overwritten querylog.json.1 dropped, followed by exactly
+    what the rotated file, the file and the buffer hold; the stored units and
+    the current one hold exactly the counted records.  Hence the never-stored
+    theorems above (stated over [all_log] / [all_stats]) cover the rotated file
+    and the stored units. *)
+Theorem C08_records_across_rotation : forall evs,
+  logged evs = dropped_from empty_store evs ++ all_log (run_log evs) /\
+  all_stats (run_log evs) = counted evs.
+Proof. exact run_log_across_rotation. Qed.
+Print Assumptions C08_records_across_rotation.
+
+(** A rotation moves the file, a roll-over the unit; neither adds a record:
+    non-vacuity of the two theorems on a history with both. *)
+Example C08_rotation_example :
+  let q (n : bytes) := {| q_name := n; q_any := false; q_addr := ([10;1;2;3], []); q_cid := []; q_cid_mac := None |} in
+  let evs := [LQuery plain_env (q [97;46]); LFlush; LRotate; LQuery plain_env (q [98;46]); LRoll;
+              LFlush; LRotate; LQuery plain_env (q [99;46])] in
+  st_old (run_log evs) = [([98], [10;1;2;3], [])] /\ st_file (run_log evs) = [] /\
+  st_mem (run_log evs) = [([99], [10;1;2;3], [])] /\
+  dropped_from empty_store evs = [([97], [10;1;2;3], [])] /\
+  st_units (run_log evs) = [[([97], [], [10;1;2;3]); ([98], [], [10;1;2;3])]] /\
+  st_stats (run_log evs) = [([99], [], [10;1;2;3])].
+Proof. exact rotation_example. Qed.
 
 (** Single-step forms, for both anonymisation settings ([ev] is arbitrary). *)
 Theorem C08_ignored_name_not_logged : forall ev q st,
@@ -108,7 +137,7 @@ Print Assumptions C08_search_rechecks.
 Theorem C08_stats_report_rechecks : forall ev mac_of st,
   (forall d, In d (stats_domains ev st) -> e_sign ev d = false) /\
   (forall s, In s (stats_clients ev mac_of st) ->
-     In s (st_stats st) /\ stats_client_counted (e_ix ev) (e_dhcp ev) [stat_key_id mac_of s] = true).
+     In s (all_stats st) /\ stats_client_counted (e_ix ev) (e_dhcp ev) [stat_key_id mac_of s] = true).
 Proof. exact stats_report_ok. Qed.
 Print Assumptions C08_stats_report_rechecks.
 
@@ -214,7 +243,7 @@ Proof. exact configured_name_never_stored. Qed.
 Print Assumptions C08_configured_name_never_stored.
 
 Theorem C08_configured_name_never_counted : forall evs s,
-  In s (st_stats (run_log evs)) ->
+  In s (all_stats (run_log evs)) ->
   exists ev q, In (LQuery ev q) evs /\ s = stat_entry ev q /\
     fst (fst s) = LogPolicy.normalize (q_name q) /\
     forall entries, stats_engine_is ev entries -> escapes entries (fst (fst s)).
